@@ -167,7 +167,7 @@ def run_replace(crystal, rq, prev=None, want_obj=False):
     before = (snapshot(st), snapshot(sp), snapshot(rp))
     kw = {}
     if v["hints"] is not None:
-        kw = {k: x for k, x in zip(("axisp1_idx", "axisp2_idx", "opoint_idx"), v["hints"]) if x is not None}
+        kw = {k: (x if v["rseed"] % 2 == 0 else np.int64(x)) for k, x in zip(("axisp1_idx", "axisp2_idx", "opoint_idx"), v["hints"]) if x is not None}
     random.seed(v["rseed"])
     np.random.seed(v["rseed"] % (2 ** 32))
     res = None
